@@ -214,7 +214,7 @@ def only_fragile(spec, N):
 def rand_formula(rng, N, depth, cheap=False, maxrank=48):
     while True:
         f = rand_formula0(rng, N, depth, cheap)
-        if est_rank(f) <= maxrank and not only_fragile(f, N):
+        if est_rank(f) <= maxrank:      # only() of formulas with cancelling dependence included since repo 43ace47
             return f
 
 
